@@ -1,6 +1,7 @@
 // C06 -- utils::find_subsequences_of_max_size_k (used for the sorted+shuffled batch selection)
 use vstd::prelude::*;
 verus! {
+//@include specs/std_extra.rs
 
 pub open spec fn is_size<T, F: Fn(&[T]) -> usize>(f: F, v: Seq<T>, s: int, e: int, r: usize) -> bool {
     exists|sl: &[T]| sl@ == v.subrange(s, e) && #[trigger] f.ensures((sl,), r)
